@@ -273,6 +273,11 @@ func (p *phase) oracleAt(i int, when string) {
 			if int64(rq.ID) < s.Streams[rq.Stream].NextPartID {
 				p.res.fail(p.sc, "C06:preload-hint:blocks-although-part-complete", desc+": sleeps although the part is complete")
 			}
+		case o.Class == "done" && o.Status == 404:
+			// acceptable only when the part is really gone (evicted while the request was pending)
+			if direct := p.d.direct(p.d.target(rq)); direct.Status == 200 && direct.Wrote && len(direct.Body) > 0 {
+				p.res.fail(p.sc, "C06:preload-hint:404-although-part-available", desc+": answered 404 although the part can still be fetched")
+			}
 		case o.Class == "done" && o.Status == 200:
 			if int64(rq.ID) >= s.Streams[rq.Stream].NextPartID {
 				p.res.fail(p.sc, "C06:preload-hint:answered-early", desc+": answered before the part was complete")
@@ -586,7 +591,7 @@ func runEvict(sc scenario, work string) (res result) {
 			return
 		}
 	}
-	if err := p.r2(i, "after the part's segment left the window"); err != nil {
+	if err := p.r2(i, "after later parts (and segments) were completed"); err != nil {
 		res.infraErr = err.Error()
 		return
 	}
@@ -633,6 +638,7 @@ func runClose(sc scenario, work string) (res result) {
 		}
 	}
 	pendingAtClose := p.sleepers()
+	pendingOrig := append([]int{}, pendingAtClose...)
 	snap, err := p.d.snap() // before Close: afterwards the muxer mutex may be gone for good (F1)
 	if fail(err) {
 		return
@@ -662,7 +668,22 @@ func runClose(sc scenario, work string) (res result) {
 		var first *event
 		gotHook := false
 		for !gotHook || (first == nil && len(pendingAtClose) > 0) {
-			wr := p.c.await(nil, watchdog)
+			var watch []*actor
+			if gotHook { // Close is parked: only the woken requesters can still move
+				for _, i := range pendingAtClose {
+					watch = append(watch, p.acts[i])
+				}
+			}
+			wr := p.c.await(watch, watchdog)
+			if wr.ev == nil && wr.blocked == "sync.Mutex.Lock" {
+				// everybody left is queued on a mutex that somebody kept: nobody will re-check
+				for _, i := range pendingAtClose {
+					p.out[i].Class = "lockblocked"
+					delete(p.sleeping, i)
+				}
+				pendingAtClose = nil
+				break
+			}
 			if wr.ev == nil {
 				fail(fmt.Errorf("close first-parked: %+v", wr))
 				return
@@ -747,7 +768,7 @@ func runClose(sc scenario, work string) (res result) {
 	}
 	// ---- after Close returned ----
 	wasPending := map[int]bool{}
-	for _, i := range pendingAtClose {
+	for _, i := range pendingOrig {
 		wasPending[i] = true
 	}
 	// later requests of every kind
@@ -824,10 +845,10 @@ func runClose(sc scenario, work string) (res result) {
 	if len(dirLeft) > 0 {
 		res.fail(sc, "C07:files-left-in-directory", fmt.Sprintf("after Close, Directory still holds %v", dirLeft))
 	}
-	res.nontriv = len(pendingAtClose) >= 1
-	res.tags = append(res.tags, "close", "close:order="+sc.Order, fmt.Sprintf("close:pending=%d", len(pendingAtClose)),
+	res.nontriv = len(pendingOrig) >= 1
+	res.tags = append(res.tags, "close", "close:order="+sc.Order, fmt.Sprintf("close:pending=%d", len(pendingOrig)),
 		"close:variant="+sc.Cfg.Variant)
-	for _, i := range pendingAtClose {
+	for _, i := range pendingOrig {
 		res.tags = append(res.tags, "close:pending-kind="+kindOf(p.reqs[i]))
 	}
 	close(p.cmds)
